@@ -115,6 +115,8 @@ pub struct SchedSpec {
     pub liveness_check: bool,
     /// background mode: separate the offset reservation of a write closure from its pwrite
     pub split_write_jobs: bool,
+    /// one directed run (no exploration): every client is brought to its channel send first
+    pub gather_at_send: bool,
 }
 
 impl SchedSpec {
@@ -139,6 +141,7 @@ impl SchedSpec {
             sync_check: false,
             liveness_check: false,
             split_write_jobs: io_mode == IoMode::Background,
+            gather_at_send: false,
         }
     }
 }
@@ -469,6 +472,17 @@ struct Rec {
 struct Content {
     keys: BTreeMap<KeyId, Vec<Rec>>,
     allow_dup: bool,
+    /// lifecycle state, tracked when every lifecycle call of the instance is synchronous
+    life: Option<Life>,
+}
+
+/// What the documented preconditions of try_close / try_create / try_restore depend on.
+/// `active == None`: unknown (a suppressed duplicate write may or may not have created it).
+/// `closed_min`: lower bound on the closed list length (asynchronous rotations only add).
+#[derive(Debug, Clone, PartialEq, Eq, Hash)]
+struct Life {
+    active: Option<bool>,
+    closed_min: usize,
 }
 
 impl Content {
@@ -520,11 +534,15 @@ impl Content {
                 if self.allow_dup || !live || force_store {
                     let val = value_tag(&value_bytes(&e.label, *size as usize));
                     self.keys.entry(*k).or_default().push(Rec { ts: *ts, del: false, val, meta: meta.unwrap_or(0) });
+                    self.note_stored();
+                } else {
+                    self.note_suppressed();
                 }
                 CRes::Ok
             }
             COp::D { k, ts } => {
                 self.keys.entry(*k).or_default().push(Rec { ts: *ts, del: true, val: String::new(), meta: 0 });
+                self.note_stored();
                 CRes::Count(0)
             }
             COp::R(k) => CRes::Read(match self.read(*k) {
@@ -536,7 +554,71 @@ impl Content {
                 o => o,
             }),
             COp::RA(k) => CRes::List(Ok(self.list(*k))),
-            COp::M(_) => CRes::Done,
+            COp::M(op) => self.apply_life(*op, &e.res),
+        }
+    }
+
+    /// `CRes::Done`: the precondition holds at this point of the order, the call has to succeed;
+    /// `CRes::Ok`: no constraint on the result.
+    fn apply_life(&mut self, op: Op, got: &CRes) -> CRes {
+        let Some(l) = self.life.as_mut() else { return CRes::Ok };
+        let succeeded = matches!(got, CRes::Done);
+        match op {
+            Op::TryClose => match l.active {
+                Some(true) => {
+                    l.active = Some(false);
+                    l.closed_min += 1;
+                    CRes::Done
+                }
+                Some(false) => CRes::Ok,
+                None => {
+                    if succeeded {
+                        l.active = Some(false);
+                        l.closed_min += 1;
+                    }
+                    CRes::Ok
+                }
+            },
+            Op::TryCreate => match l.active {
+                Some(false) => {
+                    l.active = Some(true);
+                    CRes::Done
+                }
+                Some(true) => CRes::Ok,
+                None => {
+                    if succeeded {
+                        l.active = Some(true);
+                    }
+                    CRes::Ok
+                }
+            },
+            Op::TryRestore => {
+                if l.active == Some(false) && l.closed_min >= 1 {
+                    l.active = Some(true);
+                    l.closed_min -= 1;
+                    CRes::Done
+                } else {
+                    if succeeded && l.active != Some(true) {
+                        l.active = Some(true);
+                        l.closed_min = l.closed_min.saturating_sub(1);
+                    }
+                    CRes::Ok
+                }
+            }
+            _ => CRes::Ok,
+        }
+    }
+
+    fn note_stored(&mut self) {
+        if let Some(l) = self.life.as_mut() {
+            l.active = Some(true);
+        }
+    }
+    fn note_suppressed(&mut self) {
+        if let Some(l) = self.life.as_mut() {
+            if l.active != Some(true) {
+                l.active = None;
+            }
         }
     }
 }
@@ -545,7 +627,9 @@ fn res_matches(op: &COp, got: &CRes, want: &CRes) -> bool {
     match (op, got, want) {
         // the number of blobs marked depends on the placement: any positive count
         (COp::D { .. }, CRes::Count(n), _) => *n >= 1,
-        // lifecycle calls: content-neutral, Ok or a precondition error
+        // lifecycle calls: content-neutral; have to succeed when their documented precondition
+        // holds at their place in the order, otherwise Ok or a precondition error
+        (COp::M(_), got, CRes::Done) => *got == CRes::Done,
         (COp::M(_), _, _) => true,
         (COp::RA(_), CRes::List(Ok(g)), CRes::List(Ok(w))) => dedup_markers(g) == *w,
         _ => got == want,
@@ -666,7 +750,13 @@ fn prefix_content(spec: &SchedSpec, key_len: usize) -> (Content, RefStore) {
         };
         oracle::apply_model(&mut m, *op, &tag, key_len);
     }
-    let mut c = Content { keys: BTreeMap::new(), allow_dup: spec.wcfg.allow_duplicates };
+    let asynchronous = |o: &COp| matches!(o, COp::M(Op::CloseBg | Op::CreateBg | Op::RestoreBg));
+    let life = if spec.cancel.is_some() || spec.clients.iter().flatten().chain(spec.followup.iter()).any(asynchronous) {
+        None
+    } else {
+        Some(Life { active: Some(m.active.is_some()), closed_min: m.closed.iter().filter(|b| b.is_some()).count() })
+    };
+    let mut c = Content { keys: BTreeMap::new(), allow_dup: spec.wcfg.allow_duplicates, life };
     for b in m.blobs() {
         for r in &b.records {
             c.keys.entry(r.key).or_default().push(Rec { ts: r.ts, del: r.del, val: r.val.clone(), meta: r.meta });
@@ -723,6 +813,15 @@ pub fn judge(spec: &SchedSpec, trace: &RunTrace, panics: &[String], out: &SchedO
         .map(|r| (r.0, r.1, r.2.clone()))
         .collect();
     let disk_put_count = out.disk_records.iter().filter(|r| !r.3).count();
+    if spec.gather_at_send {
+        // scale run: too many operations for the linearizability search; every acknowledged write
+        // must be on disk exactly once and readable
+        let acked = out.events.iter().filter(|e| matches!(e.op, COp::W { .. }) && e.res == CRes::Ok).count();
+        if disk_put_count != acked + start.keys.values().map(|v| v.iter().filter(|r| !r.del).count()).sum::<usize>() {
+            fs.push(finding("lost_or_duplicated", format!("{acked} writes acknowledged, {disk_put_count} put records on disk")));
+        }
+        return fs;
+    }
     if spec.cancel.is_none() {
         if disk_put_count != disk_puts.len() {
             fs.push(finding("duplicate_on_disk", format!("a record is stored twice: {:?}", out.disk_records)));
@@ -821,6 +920,10 @@ pub fn ctl_config(spec: &SchedSpec) -> CtlConfig {
     cfg.auto_clock = None;
     cfg.step_cap = 20_000;
     cfg.split_write_jobs = spec.split_write_jobs;
+    cfg.gather_at_send = spec.gather_at_send;
+    if spec.gather_at_send {
+        cfg.step_cap = 2_000_000;
+    }
     cfg
 }
 
